@@ -68,7 +68,8 @@ def tasks(tier, seed):
                         Ks = [1, 2, 3, 4] if quick else list(range(1, min(7, 2 * M + 2) + 1))
                         if kind == 'imex_1st_order':
                             Ks = [k for k in Ks if k <= ((3 if M < 3 else 2) if quick else 5)]
-                        cus = [False, True] if qt in ('RADAU-RIGHT', 'LOBATTO') and not quick else [False]
+                        # end point by quadrature although the right end is a node (collocation update): thorough everywhere, quick for LU / EE with LEGENDRE nodes
+                        cus = [False, True] if qt in ('RADAU-RIGHT', 'LOBATTO') and (not quick or (nt == 'LEGENDRE' and qd[0] in ('LU', 'EE') and qd[-1] != 'LF' and M >= 2)) else [False]
                         for cu in cus:
                             T.append(('sdc', kind, M, nt, qt, qd, tuple(Ks), cu))
     for M in ([2, 3] if quick else [2, 3, 4]):
